@@ -87,8 +87,10 @@ impl Crdt for GL {
         Some(a == b)
     }
     fn persist(s: &Self::S) -> Option<(Result<String, String>, Option<Self::S>)> {
-        let (t, back) = crate::sut::json_roundtrip(s);
-        Some((t.map(|_| "text".to_string()), back))
+        Some(crate::sut::json_roundtrip(s))
+    }
+    fn persist_op(op: &Self::Op) -> Option<(Result<String, String>, Option<Self::Op>)> {
+        Some(crate::sut::json_roundtrip(op))
     }
 }
 
@@ -169,9 +171,10 @@ impl Crdt for LS {
         Some(a == b)
     }
     fn persist(s: &Self::S) -> Option<(Result<String, String>, Option<Self::S>)> {
-        // text is not modelled (BigInt digit encoding); only the restored value is compared
-        let (t, back) = crate::sut::json_roundtrip(s);
-        Some((t.map(|_| "text".to_string()), back))
+        Some(crate::sut::json_roundtrip(s))
+    }
+    fn persist_op(op: &Self::Op) -> Option<(Result<String, String>, Option<Self::Op>)> {
+        Some(crate::sut::json_roundtrip(op))
     }
     fn op_dot(op: &Self::Op) -> Option<String> {
         // `Op::dot()` panics for an insert op carrying the empty identifier: no dot
